@@ -13,7 +13,8 @@
    only if allowed bare -- is returned byte for byte.  Concrete instance: Properties/C04.v,
    C04_sample_doc_unchanged (UGCPolicy).  The attributes the policy instructs the sanitiser to add
    or rewrite are exactly what makes an attribute list fail to be a fixpoint.
-   Missing: documents with comments or raw-text elements; carried by the pass-through oracle. *)
+   Missing: documents with comments (a comment is written with its data escaped again: not a
+   fixpoint) or raw-text elements; carried by the pass-through oracle. *)
 From Coq Require Import List NArith Bool Permutation.
 Import ListNotations.
 From BM Require Import Bytes Strings Tokenizer Policy Attrs Loop Builder AttrsSound MapProofs MiscProofs Retokenize PassThrough.
